@@ -511,6 +511,37 @@ Section Tune.
               end
           end
     end.
+
+  (* SequentialTuner.tune_node(graph, node_index): its own init_check -> _optimize_node -> final_check flow;
+     needs MORE THAN ONE search-space parameter on the node (len(node_params) > 1); when tuning is not
+     possible the graph is returned and obtained_metric = init_metric without a final check *)
+  Definition tune_node (p : proposer) (i : nat) (g : graph) : res outcome :=
+    let init := gmv g in
+    match nth_error g i with
+    | None => Raise IndexError
+    | Some n =>
+        if check_possible false (Nat.ltb 1 (List.length (space_params sp (name n)))) true init then
+          match p_steps p with
+          | [] => Raise LibraryError
+          | s :: _ =>
+              match seq_node_trials g i (st_trials s) with
+              | Raise e => Raise e
+              | Ok g1 =>
+                  match single_final_check g init (set_arg_node g1 i (st_best s)) with
+                  | Raise e => Raise e
+                  | Ok (fg, r) =>
+                      Ok {| out_multi := false; out_graphs := [fg]; out_init_metric := init; out_reported := r |}
+                  end
+              end
+          end
+        else Ok {| out_multi := false; out_graphs := [g]; out_init_metric := init; out_reported := RMetric init |}
+    end.
+
+  (* the public entry points *)
+  Inductive entry := ETune | ETuneNode (node_index : nat).
+
+  Definition run_entry (e : entry) (p : proposer) (g : graph) : res outcome :=
+    match e with ETune => tune p g | ETuneNode i => tune_node p i g end.
 End Tune.
 
 (* ---------------------------------------------------------------------------------- *)
@@ -575,6 +606,16 @@ Definition agree (cfg : config) (sp : space) (t : table) (p : proposer) (g : gra
       reported_eqb (out_reported r) (ob_reported o)
   end.
 
+Definition agree_e (e : entry) (cfg : config) (sp : space) (t : table) (p : proposer) (g : graph) (o : observed) : bool :=
+  match run_entry (table_obj t) sp cfg e p g with
+  | Raise _ => ob_raised o
+  | Ok r =>
+      negb (ob_raised o) && Bool.eqb (out_multi r) (ob_multi o) &&
+      forallb2 graph_eqb (out_graphs r) (ob_graphs o) &&
+      metric_eqb (out_init_metric r) (ob_init_metric o) &&
+      reported_eqb (out_reported r) (ob_reported o)
+  end.
+
 (* ---------------------------------------------------------------------------------- *)
 (* the property, evaluated on the OBSERVED behaviour (independent of the model's answer) *)
 (* ---------------------------------------------------------------------------------- *)
@@ -604,12 +645,10 @@ Definition nothing_to_tune (sp : space) (g : graph) : bool := negb (has_params s
 (* not worse: single objective: metric(returned) <= metric(input); multi-objective: the input
    does not dominate the returned graph *)
 Definition not_worse_b (multi : bool) (m_in m_ret : metric) : bool :=
-  if multi then
-    match m_in, m_ret with
-    | MVec iv, MVec ov => negb (Fitness.dominates_loop false iv ov)
-    | _, _ => false
-    end
-  else metric_le m_ret m_in.
+  match m_in, m_ret with
+  | MVec iv, MVec ov => negb (Fitness.dominates_loop false iv ov)   (* vector metrics: also for a single returned graph (tune_node) *)
+  | _, _ => if multi then false else metric_le m_ret m_in
+  end.
 
 Definition reported_consistent_b (multi : bool) (r : reported) (m_ret : list metric) : bool :=
   if multi then reported_eqb r (RList m_ret)
@@ -629,6 +668,18 @@ Definition holds_b (sp : space) (g : graph) (o : observed) : bool :=
   forallb (not_worse_b (ob_multi o) (ob_metric_in o)) (ob_metric_ret o) &&
   reported_consistent_b (ob_multi o) (ob_reported o) (ob_metric_ret o) &&
   (negb (nothing_to_tune sp g) || forallb (params_unchanged_b g) (ob_graphs o)).
+
+(* tune_node: additionally, only the chosen node may change *)
+Definition others_unchanged_b (i : nat) (g g' : graph) : bool :=
+  Nat.eqb (List.length g) (List.length g') &&
+  forallb (fun x => x) (mapi (fun j nn => Nat.eqb j i || dict_eqb (params (fst nn)) (params (snd nn))) (combine g g')).
+
+Definition holds_e (e : entry) (sp : space) (g : graph) (o : observed) : bool :=
+  holds_b sp g o &&
+  match e with
+  | ETune => true
+  | ETuneNode i => negb (ob_multi o) && forallb (others_unchanged_b i g) (ob_graphs o)
+  end.
 
 (* ---------------------------------------------------------------------------------- *)
 (* executable hypotheses of the theorems (evaluated by the harness on the inferred proposer) *)
@@ -680,6 +731,17 @@ Section ProposerOk.
            forallb (dict_ok_graph_b g) (p_bests p)
     end.
 End ProposerOk.
+
+(* tune_node uses the first step only, for the chosen node *)
+Definition node_step_ok_b (pb : nat -> string -> string -> value -> bool) (g : graph) (i : nat) (p : proposer) : bool :=
+  match p_steps p with
+  | [] => true
+  | s :: _ => forallb (dict_ok_node_b pb g i) (st_trials s) && dict_ok_node_b pb g i (st_best s)
+  end.
+
+Definition entry_ok_b (sp : space) (pb : nat -> string -> string -> value -> bool) (e : entry) (kind : tuner_kind)
+           (g : graph) (p : proposer) : bool :=
+  match e with ETune => proposer_ok_b sp pb kind g p | ETuneNode i => node_step_ok_b pb g i p end.
 
 (* the proposer only uses labels of search-space parameters of the node they address *)
 Definition pb_space (sp : space) (i : nat) (nm k : string) (v : value) : bool := in_space sp nm k.
